@@ -48,13 +48,21 @@ func init() {
 		})
 	register("C16",
 		"Structural necessary conditions of the middleware protocol, decided per integration on the per-request function's control-flow graph and then compared across the five siblings: one CreateScope(request context) on the captured provider; creation error -> error handler, return; a close guarantee in force before any user callback (deferred Close; fiber: Locals + explicit Close + fasthttp lemma checked in the fasthttp source); scope.Context() attached before middlewares/next and flowing on; middlewares in slice order with that scope, error -> error handler, return, next unreachable; next exactly once on the normal path; Handle: recover only under cfg.PanicRecovery, scope from the request, matching error handler on each failure edge, method dominated by both successes and given the resolved controller. ISO: no mutable resolution state shared between requests (record confinement). NOT decided: status codes, behaviour of the frameworks beyond the lemma.",
-		commonAssumptions, checkC16)
+		commonAssumptions, func(w *World, r *Report) {
+			checkC16(w, r)
+			r.Rule("L1", 3, "a request-scoped registration stays request-scoped in every derived form: descriptors derived for aliases and multi-output constructors copy Lifetime (the zero value is Singleton: one instance built at Build, shared by all requests, never closed at request end)")
+			r.Try(func() { ruleFamilyCopies(w, r, "L1") })
+		})
 	register("C17",
 		"Structural necessary conditions of 'the collection is an exact, atomic registry and Build takes a snapshot': three-view consistency of every writer of services/groups/allDescriptors; the duplicate test returns AlreadyRegisteredError on its hit edge and dominates every insertion (inline, or through the infallible-insert idiom with per-descriptor or whole-batch checks); groups grow by append; no error return is reachable after a registry write in the registration functions (or every written view is undone); the provider receives fresh containers; queries read the same views; validation dominates registration; all accesses hold collection.mu. NOT decided: equality with a reference registry over all histories.",
 		commonAssumptions, checkC17)
 	register("C18",
 		"Structural necessary conditions of 'built-in injectables and context linkage are scope-correct': the built-in switch of resolution returns exactly the resolving scope's own context / root provider / itself for the three reserved types, only for unkeyed ungrouped requests and before the registry lookup; constructors are invoked with the constructing scope as resolver and singletons on the root scope; the scope's context is WithValue(derived parent, scopeContextKey{}, that scope) with the caller's context (or the documented default) as parent on every path (reaching definitions); the key type is private to the constructor and FromContext; every successful registration check has tested descriptor.Type against the reserved table. NOT decided: observed identities over all scope trees.",
-		commonAssumptions, checkC18)
+		commonAssumptions, func(w *World, r *Report) {
+			checkC18(w, r)
+			r.Rule("R18.7", 3, "the reserved-type test is reached for every descriptor that is inserted: the registration check dominates every insertion (group members included)")
+			r.Try(func() { reexport(w, r, "R18.7", func(sub *Report) { checkC17(w, sub) }, "R17.2") })
+		})
 	register("C19",
 		"Structural necessary conditions the statement singles out for the graph component: (R19.1) every exported mutator marks both caches dirty on every path that changed nodes/edges, and the sorted-order cache is written only together with clearing its flag; (R19.2) every immediate mutator recomputes degrees after its last change, the deferred add is completed by DetectCycles which recomputes first; (R19.3) the rejection path of AddProvider deletes only nodes this call created and restores the previous provider; (R19.4) every access to the graph's fields holds its mutex. Agreement of the fifteen queries with a reference digraph over all operation sequences is value-level and NOT decided.",
 		commonAssumptions, func(w *World, r *Report) {
